@@ -151,6 +151,7 @@ func run(c *rig.Ctx) {
 					nm := name(code)
 					// ---- writes ----
 					var writes []ref.Access
+					var planted []uint8
 					for _, a := range pred.Acc {
 						if a.Write {
 							writes = append(writes, a)
@@ -171,7 +172,7 @@ func run(c *rig.Ctx) {
 								writes = append(writes, a)
 							}
 						}
-						planted := make([]uint8, len(writes))
+						planted = make([]uint8, len(writes))
 						for k, w := range writes {
 							planted[k] = s.peek(w.Addr)
 						}
@@ -196,6 +197,35 @@ func run(c *rig.Ctx) {
 								c.Violate(fmt.Sprintf("%s-write-cycle", nm), fmt.Sprintf("%s (%s, F=%02X): write to [%04X] observed in machine cycle %d, documented cycle %d of %d", nm, g.name, regs.F, w.Addr, seenAt[k], w.Cycle, pred.Cycles),
 									map[string]any{"code": fmt.Sprintf("% X", code), "regs": regs, "addr": w.Addr})
 							}
+						}
+					}
+					// ---- writes happen unconditionally ----
+					// A store is a bus access whether or not it changes the byte (memory-mapped
+					// hardware reacts to being written). For every documented write the byte is
+					// replaced by a foreign value right before the documented write cycle; after
+					// that cycle it must hold the documented value again.
+					for wi := range writes {
+						w := writes[wi]
+						foreign := ^w.Val ^ 0x5a
+						if foreign == w.Val {
+							foreign ^= 1
+						}
+						for k, x := range writes {
+							s.m.Mem.Write(x.Addr, planted[k])
+						}
+						okWrite := true
+						s.execute(regs, pred.Cycles, func(done int) {
+							if done == w.Cycle-1 {
+								s.m.Mem.Write(w.Addr, foreign)
+							}
+							if done == w.Cycle && s.peek(w.Addr) != w.Val {
+								okWrite = false
+							}
+						})
+						c.Count("write_accesses_forced", 1)
+						if !okWrite {
+							c.Violate(fmt.Sprintf("%s-write-elided", nm), fmt.Sprintf("%s (%s, F=%02X): [%04X] was changed to %02X right before machine cycle %d; after that cycle it does not hold the documented value %02X (no store happened in that cycle)", nm, g.name, regs.F, w.Addr, foreign, w.Cycle, w.Val),
+								map[string]any{"code": fmt.Sprintf("% X", code), "regs": regs, "addr": w.Addr})
 						}
 					}
 					// ---- reads ----
